@@ -7,7 +7,7 @@ import (
 	"testing/synctest"
 	"time"
 
-	gojson "github.com/goccy/go-json"
+	gojson "encoding/json"
 	"github.com/smartcontractkit/libocr/commontypes"
 	"github.com/smartcontractkit/libocr/offchainreporting2plus/ocr3types"
 	ocr2plustypes "github.com/smartcontractkit/libocr/offchainreporting2plus/types"
